@@ -133,6 +133,7 @@ func genLeaseFile(rng *rand.Rand, v6 bool) string {
 	}
 	var lines []string
 	var macs [][]byte
+	wideSpace := rng.Intn(4) == 0 // a file in which fields are also separated, padded and indented by other white space than blank and tab
 	for i := 0; i < n; i++ {
 		switch rng.Intn(10) {
 		case 0:
@@ -157,9 +158,22 @@ func genLeaseFile(rng *rand.Rand, v6 bool) string {
 			ip = net.IPv4(10, byte(rng.Intn(256)), byte(rng.Intn(256)), byte(1+rng.Intn(254)))
 		}
 		sep := []string{" ", "\t", "  ", " \t "}[rng.Intn(4)]
+		if wideSpace && rng.Intn(3) == 0 {
+			// every character Go (strings.Fields, as the plugin splits) and Unicode call white space separates
+			// fields: text pasted from a web page, a spreadsheet or a CJK input method carries these
+			sep = []string{"\u00a0", "\u3000", "\u2003", "\u0085", "\v", "\f", " \u00a0", "\u2009\t", "\u202f", "\u2028"}[rng.Intn(10)]
+		}
 		l := macSpell(rng, mac) + sep + ipSpell(rng, ip, v6)
 		if rng.Intn(8) == 0 {
 			l += " "
+		}
+		if wideSpace {
+			switch rng.Intn(6) {
+			case 0:
+				l += []string{"\r", "\u00a0", "\u3000", " \r"}[rng.Intn(4)] // CRLF file, padded cell
+			case 1:
+				l = []string{" ", "\t", "\u00a0", "\u3000"}[rng.Intn(4)] + l // indented entry
+			}
 		}
 		lines = append(lines, l)
 	}
